@@ -350,4 +350,10 @@ def trigScopeSingle (snakeSetting : Bool) (s : Scope) (n : Name) : Bool :=
   if s = .resultField ∧ n = typenameField then false
   else trigDigitLead (scopeCfg snakeSetting s) n || trigTrimToKeyword (scopeCfg snakeSetting s) n
 
+/-- C18-F9: the result class of an operation is named `str_to_pascal_case(operation name)`, with no
+    check at all: no letter or digit (`_` -> empty name), a leading digit (`_1` -> `1`), or a
+    keyword (`none` -> `None`, `true` -> `True`, `false` -> `False`). -/
+def trigPascalBad (n : Name) : Bool :=
+  allUnderscore n || cls1 (lstripU n) == .D || decide (pascal n ∈ kwlistC)
+
 end Ariadne.Names
